@@ -69,3 +69,22 @@ class Book(ss.Analyzer):
             self.problems.append((ti, f'death requested at step {int(ppl.ti_dead.raw[overdue[0]])} for agent {int(overdue[0])} has still not been carried out after the death-resolution phase of step {int(ti)}'))
         self.rows.append(dict(ti=int(ti), n_uid=n, n_active=len(au), alive_active=int(np.count_nonzero(ppl.alive.raw[au])),
                               late=int(np.count_nonzero((~ppl.alive.raw[au]) & (ppl.ti_dead.raw[au] < ti)))))
+
+
+class MarkerModule(ss.Intervention):
+    """Owns an agent state whose default is a distribution (drawn when agents are created) and never touches it again."""
+    def __init__(self, **kw):
+        super().__init__(**kw)
+        self.define_states(ss.FloatArr('marker', default=ss.random(name='markerdist')))
+    def step(self): pass
+
+
+class ExtraAgent(ss.Intervention):
+    """Creates one extra (isolated, male) agent at a given step: later agents get later uids, their slots are unaffected."""
+    def __init__(self, at=1, **kw):
+        super().__init__(**kw); self.at = at
+    def step(self):
+        if self.ti == self.at:
+            new = self.sim.people.grow(1, new_slots=np.array([987654]))
+            self.sim.people.female[new] = False
+            self.sim.people.age[new] = 5.0
